@@ -1,0 +1,9 @@
+//go:build verif
+
+package vgis3
+
+// VerifGenerateKey exposes the object-key generator used by Upload
+// (key = prefix + VerifGenerateKey()) so that key uniqueness can be checked
+// at volume without a storage endpoint. Read-only wrapper; never changes
+// behaviour.
+func VerifGenerateKey() string { return generateUUID() }
